@@ -10,12 +10,23 @@ Baseline of an operation = its observation as the FIRST call of a fresh
 process (a child forked from the pristine parent, which has imported the
 scratch copy and built the ply tables but has never parsed anything else).
 
-(a) Histories (E4).  ALL sequences of calls over the pool up to the tier's
-    length are executed with one fork per trie node (`history.fork_trie`): the
-    process that has executed a prefix is the snapshot from which every
-    extension is forked, so each sequence runs in a process that has executed
-    exactly its own prefix, and every call of every sequence is compared with
-    its baseline.
+(a) Histories (E4).  Forking is what gives a history its own process; in this
+    environment a forked child that parses costs 0.1 - 1 s of CPU (copy on
+    write faults of the interpreter heap), a parse in-process 2 ms.  So:
+    (a1) EXACT: every sequence of <= 2 calls over the whole pool (thorough:
+         also every sequence of 3 calls over a sub-pool) is executed in its
+         own child forked from a pristine worker; every call is compared.
+    (a2) WINDOWS: every sequence of 3 calls over the whole pool (thorough:
+         also of 4 calls over a reduced pool) occurs as a contiguous window of
+         a de Bruijn sequence, which is cut into one segment per worker and
+         executed call after call in that worker; every call is compared.  A
+         window does not start in a fresh process; to show that it starts in
+         an EQUIVALENT state, the E4 fingerprint of the global state of
+         calmjs.parse.* and ply.lex / ply.yacc is taken after every call and
+         the distinct classes are counted and reported (`state_class`).
+         A deviating window is never reported as such: the shortest suffix of
+         the worker's own call sequence that reproduces it in a fresh process
+         is searched and reported (nothing reproduces -> harness error).
 
 (b) Schedules (E5).  n real threads, each parsing one text, serialised by a
     baton (`schedule.Baton`).  Scheduling points are injected from the
@@ -80,6 +91,10 @@ REDUCED = ('division-multiline', 'asi-restricted', 'regex-backtrack',
            'lexer-error-line2', 'unbalanced-open-paren',
            'mismatched-close-paren', 'pending-hidden-comments',
            'comments-inside', 'string-continuation', 'unbalanced-at-eof')
+
+# thorough: every triple over these, each triple in a fresh process
+EXACT3 = ('regex-backtrack', 'lexer-error-line2', 'unbalanced-open-paren',
+          'pending-hidden-comments', 'comments-inside')
 
 # texts of <= 4 tokens (one of 5) for the schedule explorer: (text, flag)
 SCHED = [
@@ -147,14 +162,15 @@ def first_call(op):
 
 
 def baselines(ops):
+    ops = list(ops)
+    a = H.fresh_children(first_call, [(op,) for op in ops])
+    b = H.fresh_children(first_call, [(op,) for op in ops])
     base = {}
-    for op in ops:
-        a = H.fresh_child(first_call, op)
-        b = H.fresh_child(first_call, op)
-        if a != b:
+    for op, x, y in zip(ops, a, b):
+        if x != y:
             raise HarnessError(
                 'first call of %r differs between two fresh processes' % (op,))
-        base[op] = a
+        base[op] = x
     return base
 
 
@@ -189,65 +205,207 @@ def brief(obs):
 # (a) histories
 # ---------------------------------------------------------------------
 
-def history_block(ops, base, maxlen, roots):
-    """Runs in a pmap worker, which itself never parses: every root prefix is
-    executed in a child forked from the (pristine) worker."""
-    L = lib()
-    bag = VioBag()
-    nodes = 0
+def debruijn(k, n):
+    """de Bruijn sequence B(k, n): a cyclic sequence over range(k) in which
+    every word of length n occurs exactly once (Fredricksen-Kessler-Maiorana)
+    """
+    a = [0] * (k * n)
+    seq = []
 
-    def step(seq):
-        op = ops[seq[-1]]
-        got = observe_call(L, op)
-        want = base[op]
-        if got == want:
-            return None
-        prev = [ops[i] for i in seq[:-1]]
-        sig = 'C15|history|%s|failing=%s|after=%s|flags=%s' % (
-            how(want, got), kind(want),
-            kind(base[prev[-1]]) if prev else 'nothing',
-            'same' if prev and prev[-1][1] == op[1] else 'differ')
-        return (sig, {'calls': [list(o) for o in prev + [op]]},
-                'call %d (%s): first-call result %s; now %s' % (
-                    len(seq), tag_of(op[0]), brief(want), brief(got)))
+    def db(t, p):
+        if t > n:
+            if n % p == 0:
+                seq.extend(a[1:p + 1])
+        else:
+            a[t] = a[t - p]
+            db(t + 1, p)
+            for j in range(a[t - p] + 1, k):
+                a[t] = j
+                db(t + 1, t)
+    db(1, 1)
+    return seq
 
-    def node(root):
+
+PLY_HOOKS = ('ply.yacc:_errok', 'ply.yacc:_token', 'ply.yacc:_restart')
+
+
+def state_class():
+    """
+    E4 fingerprint of the process-global state that a parse could read:
+    all globals / class attributes of calmjs.parse.* (ply table modules
+    excluded: pure data, compared at the start and end of a worker) and of
+    ply.lex / ply.yacc.  ply.yacc's deprecated global error hooks _errok /
+    _token / _restart (set around every p_error call, deleted afterwards -
+    unless p_error raises; never read by calmjs.parse) are abstracted to
+    None / set / absent.
+    """
+    g = H.global_fp(skip=('lextab_', 'yacctab_'),
+                    extra=('ply.lex', 'ply.yacc'))
+    return [(k, (v if v is None else 'set') if k in PLY_HOOKS else v)
+            for k, v in g]
+
+
+def violation(ops, base, calls, got, where):
+    """-> (sig, witness, detail) for the last call of `calls` (op indices)"""
+    op = ops[calls[-1]]
+    want = base[op]
+    prev = [ops[i] for i in calls[:-1]]
+    sig = 'C15|history|%s|failing=%s|after=%s|flags=%s' % (
+        how(want, got), kind(want),
+        kind(base[prev[-1]]) if prev else 'nothing',
+        'same' if prev and prev[-1][1] == op[1] else 'differ')
+    return (sig, {'calls': [list(o) for o in prev + [op]]},
+            '%s: call %d (%s): first-call result %s; now %s' % (
+                where, len(calls), tag_of(op[0]), brief(want), brief(got)))
+
+
+def exact_sequences(ops, base, seqs):
+    """Each sequence in its own child forked from this (pristine) process;
+    every call compared.  -> (calls executed, [violation records])"""
+    def one(seq):
+        L = lib()
         recs = []
-        for i in range(1, len(root) + 1):
-            r = step(root[:i])
-            if r is not None:
-                recs.append(r)
-        n, more = H.fork_trie(len(ops), maxlen, step, tuple(root))
-        return len(root) + n, recs + more
+        for i in range(len(seq)):
+            got = observe_call(L, ops[seq[i]])
+            if got != base[ops[seq[i]]]:
+                recs.append(violation(ops, base, seq[:i + 1], got,
+                                      'fresh process'))
+        return recs
+    out = []
+    calls = 0
+    for seq, recs in zip(seqs, H.fresh_children(
+            one, [(tuple(q),) for q in seqs], width=3)):
+        calls += len(seq)
+        out.extend(recs)
+    return calls, out
 
-    for root in roots:
-        n, recs = H.fresh_child(node, tuple(root), timeout=1200.0)
-        nodes += n
-        for sig, w, d in recs:
-            bag.add(sig, w, d)
-    return nodes, bag
+
+def window_segment(ops, base, seg, order):
+    """One worker: the calls of `seg` one after the other in this process.
+    Returns (calls, suspects [(sig, pos, detail)], classes {digest: calls
+    started in that class}, class changes [(pos, key)])."""
+    L = lib()
+    ref = state_class()
+    cls = H.digest(ref)
+    classes = collections.Counter()
+    changes = []
+    suspects = []
+    for pos, i in enumerate(seg):
+        classes[cls] += 1
+        got = observe_call(L, ops[i])
+        if got != base[ops[i]]:
+            lo = max(0, pos - order + 1)
+            sig, _, detail = violation(
+                ops, base, seg[lo:pos + 1], got, 'window')
+            suspects.append((sig, pos, detail))
+        now = state_class()
+        if now != ref:
+            if len(changes) < 50:
+                changes.append((pos, H.first_difference(ref, now)))
+            ref = now
+            cls = H.digest(now)
+    return len(seg), suspects, dict(classes), changes
 
 
-def run_histories(rep, name, ops, maxlen):
+def confirm_suspect(ops, base, seg, pos, order):
+    """Shortest suffix of seg[:pos+1] (tried: order-1, order, then doubling)
+    whose last call deviates when run alone in a fresh process."""
+    def last_of(calls):
+        L = lib()
+        got = None
+        for i in calls:
+            got = observe_call(L, ops[i])
+        return got
+    lengths = []
+    n = 2
+    while n < pos + 1:
+        lengths.append(n)
+        n = n + 1 if n < order + 1 else n * 2
+    lengths.append(pos + 1)
+    for n in lengths:
+        calls = list(seg[pos - n + 1:pos + 1])
+        got = H.fresh_child(last_of, calls, timeout=600.0)
+        if got != base[ops[calls[-1]]]:
+            return violation(ops, base, calls, got, 'fresh process')
+    return None
+
+
+def run_histories(rep, name, ops, order, exact_len, exact_ops=None):
     base = baselines(ops)
     n = len(ops)
-    rootlen = min(2, maxlen) if maxlen <= 3 else 3
-    roots = list(itertools.product(range(n), repeat=rootlen))
 
-    def work(items, idx):
-        return history_block(ops, base, maxlen, items)
+    # (a1) exact: every sequence of <= exact_len calls over `exact_ops`,
+    # each in its own fresh process
+    ex = list(range(n)) if exact_ops is None else [
+        ops.index(o) for o in exact_ops]
+    seqs = list(itertools.product(ex, repeat=exact_len))
+
+    def work_exact(items, idx):
+        return exact_sequences(ops, base, items)
     calls = 0
-    for nodes, bag in pmap(work, roots):
-        calls += nodes
-        rep.bag.merge(bag)
-    distinct = sum(n ** k for k in range(1, maxlen + 1))
-    rep.space('histories-' + name, operations=n, max_len=maxlen,
-              sequences=distinct, calls_executed=calls,
+    for c, recs in pmap(work_exact, seqs):
+        calls += c
+        for sig, w, d in recs:
+            rep.bag.add(sig, w, d)
+    exact = sum(len(ex) ** k for k in range(1, exact_len + 1))
+
+    # (a2) windows: every sequence of `order` calls occurs as a contiguous
+    # window of a de Bruijn sequence that is cut into one segment per worker
+    cyc = debruijn(n, order)
+    lin = cyc + cyc[:order - 1]
+    nw = ncpu()
+    per = (len(cyc) + nw - 1) // nw
+    segs = [lin[lo:lo + per + order - 1] for lo in range(0, len(cyc), per)]
+
+    def work_windows(items, idx):
+        return [window_segment(ops, base, seg, order) for seg in items]
+    wcalls = 0
+    classes = collections.Counter()
+    suspects = {}
+    changes = []
+    results = pmap(work_windows, segs)
+    flat = []
+    k = len(results)
+    for i in range(len(segs)):
+        flat.append(results[i % k][i // k])
+    for si, (c, sus, cl, ch) in enumerate(flat):
+        wcalls += c
+        classes.update(cl)
+        changes.extend(ch[:3])
+        for sig, pos, detail in sus:
+            e = suspects.setdefault(sig, [0, []])
+            e[0] += 1
+            e[1].append((pos, si, detail))
+    for sig in sorted(suspects):
+        cnt, cands = suspects[sig]
+        cands.sort()
+        done = False
+        for pos, si, detail in cands[:3]:
+            v = confirm_suspect(ops, base, segs[si], pos, order)
+            if v is not None:
+                rep.bag.add(v[0], v[1], v[2])
+                rep.bag.d[v[0]][0] += cnt - 1
+                done = True
+                break
+        if not done:
+            rep.harness_errors.append(
+                'window observation %s (%d cases, e.g. %s) does not reproduce '
+                'in a fresh process from any suffix of its worker\'s call '
+                'sequence' % (sig, cnt, cands[0][2]))
+    rep.space('histories-' + name, operations=n,
+              exact_max_len=exact_len, exact_operations=len(ex),
+              exact_sequences_each_in_a_fresh_process=exact,
+              exact_calls=calls, window_len=order,
+              windows=len(cyc), window_calls=wcalls,
+              global_state_classes=len(classes),
+              calls_started_per_class=dict(classes),
+              first_class_changes=[list(c) for c in changes[:8]],
               first_call_kinds=dict(collections.Counter(
                   kind(o) for o in base.values())))
     rep.outcome(collections.Counter(
         'first-call:' + kind(o) for o in base.values()))
-    return distinct, distinct - n, calls
+    distinct = exact + len(cyc)
+    return distinct, distinct - n, calls + wcalls, len(classes)
 
 
 # ---------------------------------------------------------------------
@@ -523,15 +681,19 @@ def run_line_level(rep, base):
 def run(tier, rep):
     all_names = [n for n, _ in POOL]
     states = nontriv = calls = 0
-    d, nt, c = run_histories(rep, 'full-pool', ops_of(all_names), 3)
+    d, nt, c, ncls = run_histories(rep, 'full-pool', ops_of(all_names), 3, 2)
     states += d
     nontriv += nt
     calls += c
+    rep.cov['global_state_classes_full_pool'] = ncls
     if tier == 'thorough':
-        d, nt, c = run_histories(rep, 'reduced-pool', ops_of(REDUCED), 4)
+        d, nt, c, ncls = run_histories(
+            rep, 'reduced-pool', ops_of(REDUCED), 4, 3,
+            exact_ops=ops_of(EXACT3))
         states += d
         nontriv += nt
         calls += c
+        rep.cov['global_state_classes_reduced_pool'] = ncls
 
     base = baselines(SCHED)
     rep.outcome(collections.Counter(
@@ -558,17 +720,20 @@ def run(tier, rep):
     rep.cov['transitions'] = calls
     rep.cov['traces_validated_against_impl'] = calls
     rep.cov['rule'] = (
-        'states = call sequences (histories) + complete thread schedules '
-        'executed, each enumerated exactly once (full products / depth first '
-        'over scheduling choices with replay; no sampling); transitions = '
+        'states = call sequences (histories: those run in their own fresh '
+        'process + those covered as a window of a de Bruijn sequence) + '
+        'complete thread schedules executed, each enumerated exactly once '
+        '(full products / depth first over scheduling choices with replay; '
+        'no sampling); transitions = '
         'parse calls executed; traces = parse results compared with the '
         'result of the same call as the first call of a fresh process.  '
         'Non-trivial = a history of >= 2 calls, or a schedule in which a '
         'thread is resumed after another thread has run')
     rep.cov['bounds'] = {
-        'history_pool': len(POOL) * 2, 'history_len': 3,
-        'reduced_pool': len(REDUCED) * 2 if tier == 'thorough' else 0,
-        'reduced_len': 4 if tier == 'thorough' else 0,
+        'history_pool_ops': len(POOL) * 2, 'exact_len': 2, 'window_len': 3,
+        'reduced_pool_ops': len(REDUCED) * 2 if tier == 'thorough' else 0,
+        'reduced_window_len': 4 if tier == 'thorough' else 0,
+        'exact3_ops': len(EXACT3) * 2 if tier == 'thorough' else 0,
         'schedule_texts': len(SCHED), 'threads': [2] if tier == 'quick'
         else [2, 3], 'line_pairs': len(LINE_PAIRS) if tier == 'thorough'
         else 0, 'preemptions_line_level': 1}
